@@ -140,6 +140,9 @@ def run_prune_stopped(inst):
 def run_instance(inst):
     if inst[0] == 'prune_stopped':
         return run_prune_stopped(inst)
+    if inst[0] == 'ne_step_rel':
+        from harness import nestep
+        return nestep.run(inst)
     return gabs.run(inst, claims_fn, witness_fn)
 
 
@@ -153,13 +156,15 @@ def main(tier):
                              mb.BaseMatcher._match_non_emitting_states_end, mb.LatticeColumn.prune, mb.LatticeColumn.__len__)
     budget = 60 if tier == 'quick' else 900
     from symx.common import run_instances
-    kres = run_instances(run_instance, [('prune_stopped', n, k, W) for n in (2, 3) for k in (1, 2) for W in range(1, n + 1)])
+    sb = 60 if tier == 'quick' else 600
+    steps = [('ne_step_rel', 'loglevel', gn, NAMED[gn], fam, sb) for gn, fam in (('oneway4', 'simple'), ('oneway4', 'dist'), ('oneway3', 'simple_n'), ('tri', 'simple'), ('fork', 'dist'))]
+    kres = run_instances(run_instance, steps + [('prune_stopped', n, k, W) for n in (2, 3) for k in (1, 2) for W in range(1, n + 1)])
     res = list(kres) + gabs.run_all(rep, run_instance, instances(tier), budget, 16 * (100 if tier == 'quick' else 900))
     rep.bounds = dict(graphs="oneway2, line2, oneway3, oneway4, k3 (node states)" if tier == 'quick' else "all digraphs <=3 nodes/<=4 edges, fork, oneway4",
                       T="1..3", config="max_dist (+max_dist_init) or min_prob_norm symbolic so that stopped candidates exist; three families; non-emitting on/off; width 1")
     rep.outside = ["log output itself", "rounding", "graphs/traces beyond the bound"]
     rep.assumptions = ["NullHandler on the package logger; formatting of symbolic numbers in log f-strings returns a placeholder (Sym.__format__)"]
-    gabs.collect(rep, res, PID, need_tags=('stopped_entries_kept_under_debug', 'nonempty', 'early_stop'))
+    gabs.collect(rep, res, PID, need_tags=('stopped_entries_kept_under_debug', 'nonempty', 'early_stop', 'ne_step_two_nonemitting_layers'))
     return rep.finish("relational symbolic execution of the real match() at ERROR and DEBUG level in one symbolic path over abstract geometry; "
                       "equality of states, index, best path and probabilities decided by z3")
 
@@ -171,4 +176,7 @@ def replay_file(path):
     if d.get('kind') == 'prune_stopped':
         print(d['observed'])
         return 1
+    if d.get('kind') == 'ne_step_rel':
+        from harness import nestep
+        return nestep.replay(d)
     return gabs.replay(path, claims_fn)
